@@ -163,6 +163,16 @@ func LargeDeps() []ADep {
 			ADep{ARel{{Name: "a", Profiles: [][]AStage{stages}, Groups: "p"}}},
 			ADep{ARel{{Name: "a", Archs: archs, Profiles: [][]AStage{stages, stages[:2]}, Op: "<<", Num: "2", Groups: "vapp"}}})
 	}
+	// fields whose single physical line is longer than any line buffer (bufio's 64 KiB token limit): thousands of
+	// relations, and one name of 70000 characters
+	for _, n := range []int{3000, 6000} {
+		var d ADep
+		for i := 0; i < n; i++ {
+			d = append(d, ARel{withName(reps[i%len(reps)], i)})
+		}
+		out = append(out, d)
+	}
+	out = append(out, ADep{ARel{{Name: "a"}}, ARel{{Name: strings.Repeat("libx", 17500)}}, ARel{{Name: "z", Op: ">=", Num: "1", Groups: "v"}}})
 	long := strings.Repeat("libfoo-bar1.2+x", 12)
 	out = append(out, ADep{ARel{{Name: long}}, ARel{{Name: "b", Op: "=", Num: strings.Repeat("1.2~rc3+b", 20) + "-1", Groups: "v"}}, ARel{{Name: long + "z", Qual: "any"}}})
 	return out
